@@ -525,6 +525,35 @@ def main(argv):
             subprocess.run(['rm', '-rf', sd])
         except Exception as e:  # never let the sweep decide anything
             seed_runs.append({'error': str(e)})
+    # ---- bounded stand-ins (Kani) for functions outside the deductive verifier's reach: labelled bounded, never counted as proved
+    bounded_runs = []
+    for bc in meta[prop].get('bounded_checks', []):
+        n = bc['n_thorough'] if tier == 'thorough' else bc['n_quick']
+        cdir = os.path.join(VERIF, '.cache', key)
+        os.makedirs(cdir, exist_ok=True)
+        cp = os.path.join(cdir, 'bounded_%s_%d.json' % (bc['id'], n))
+        if os.path.exists(cp):
+            br = json.load(open(cp)); br['cached'] = True
+        else:
+            try:
+                pb = subprocess.run([sys.executable, os.path.join(VERIF, bc['script']), str(n)], capture_output=True, text=True, timeout=3000)
+                last = [l for l in pb.stdout.strip().split('\n') if l.strip()][-1] if pb.stdout.strip() else ''
+                br = json.loads(last) if last.startswith('{') else {'ok': False, 'failed': False, 'note': (pb.stdout + pb.stderr)[-400:]}
+                br['rc'] = pb.returncode
+            except Exception as e:
+                br = {'ok': False, 'failed': False, 'note': str(e), 'rc': 2}
+            br['cached'] = False
+            if br.get('ok') or br.get('failed'):
+                json.dump(br, open(cp, 'w'))
+        br['id'] = bc['id']; br['function'] = bc['function']; br['tool'] = bc.get('tool', 'kani')
+        bounded_runs.append(br)
+        if br.get('failed'):
+            e = {'fn': bc['function'], 'kind': 'bounded check failed (Kani, %s)' % br.get('bound', ''), 'clause': '; '.join(br.get('failed_checks', []))[:300],
+                 'site': 'counterexample %r' % br.get('counterexample_text', ''), 'rendered': br.get('tail', '')[-1500:],
+                 'replayed': bool(br.get('replayed_natively')), 'input': br.get('counterexample_text')}
+            violations.append(('kani:' + bc['id'], e))
+        elif not br.get('ok'):
+            undecided.append('bounded check %s could not be run: %s' % (bc['id'], (br.get('note') or br.get('tail') or '')[-200:]))
     wall = time.time() - t0
     status = 0
     out_lines = []
@@ -551,7 +580,7 @@ def main(argv):
                 break
         rec = {'property': prop, 'failed_obligations': [
             {'unit': u, 'function': e['fn'], 'kind': e['kind'], 'clause': e['clause'], 'site': e['site'],
-             'verifier_output': e['rendered']} for u, e in violations],
+             'verifier_output': e['rendered'], **({'counterexample_input': e['input'], 'replayed_on_real_code': e.get('replayed')} if e.get('input') is not None else {})} for u, e in violations],
             'witness': witness, 'witnesses_tried': tried}
         if witness:
             rec['replay_result'] = replayed
@@ -581,7 +610,8 @@ def main(argv):
             'samples': samples,
             'rule': 'obligations = ensures clauses + loop invariant clauses + built-in no-panic sites (unwrap/index/slice/arithmetic) + call sites of contracted functions that carry a precondition + 1 (termination / remaining call preconditions) per function, counted by the weaver on the extracted text of this run',
             'not_covered': m.get('not_covered', []),
-            'bounded': m.get('bounded', []),
+            'bounded': m.get('bounded', []) + [{'function': b['function'], 'tool': b['tool'], 'bound': b.get('bound'), 'ok': b.get('ok'), 'wall_s': b.get('wall_s'), 'cached': b.get('cached'),
+                                                'note': 'BOUNDED stand-in, not counted among the discharged obligations'} for b in bounded_runs],
         },
         'assumptions': m.get('assumptions', []) + ['rewrite rules applied by the extractor (R1 lock elision = handler body is one atomic step; R2 opaque errors; R3 logging dropped; R6 ghost outbox)'],
         'wall_s': round(wall, 2),
